@@ -974,13 +974,13 @@ theorem pubKey_parse_ser (trust secret : Bool) (k : PubKey) (rest : Bytes) (h : 
   · have hne6 : ver.toNat ≠ 6 := by simp [isV3] at h3; omega
     have hpp := pubParams_parse_ser trust alg none pp rest hp
       (by intro d hd; exact Or.inl ⟨rfl, hu hne6 d hd⟩)
-    simp only [pubKeySer, h3, if_true, List.cons_append, List.append_assoc, pubKeyParse, u8,
+    simp only [pubKeySer, h3, if_true, List.cons_append, List.append_assoc, pubKeyParse, pubKeyParseWith, u8,
       take_append' 4 created _ hc, take_append' 2 exp _ he, List.nil_append, ha, hpp]
   · have n3 : isV3 ver = false := by simp [isV3, h4]
     have n6 : isV6 ver = false := by simp [isV6, h4]
     have hpp := pubParams_parse_ser trust alg none pp rest hp
       (by intro d hd; exact Or.inl ⟨rfl, hu (by omega) d hd⟩)
-    simp only [pubKeySer, n3, n6, Bool.false_eq_true, if_false, List.cons_append, List.append_assoc, pubKeyParse, u8,
+    simp only [pubKeySer, n3, n6, Bool.false_eq_true, if_false, List.cons_append, List.append_assoc, pubKeyParse, pubKeyParseWith, u8,
       h4, if_true, take_append' 4 created _ hc, List.nil_append, hpp]
   · have n3 : isV3 ver = false := by simp [isV3, h6]
     have n6 : isV6 ver = true := by simp [isV6, h6]
@@ -993,12 +993,12 @@ theorem pubKey_parse_ser (trust secret : Bool) (k : PubKey) (rest : Bytes) (h : 
     have hdr : (pubParamsSer pp ++ rest).drop (pubParamsWriteLen pp) = rest := by
       rw [← hl]; simp
     simp only [pubKeySer, n3, n6, Bool.false_eq_true, if_false, if_true, List.cons_append, List.append_assoc,
-      pubKeyParse, u8, h6, take_append' 4 created _ hc, List.nil_append,
+      pubKeyParse, pubKeyParseWith, u8, h6, take_append' 4 created _ hc, List.nil_append,
       take_append' 4 (be32 _) _ (be32_length _), beNat_be32 _ hlt, htk, hdr, hpp]
-    cases secret
-    · have := hne rfl
-      simp [this]
-    · simp
+    have hex : pubLenExact = true := by decide
+    have hnz := hne (Or.inr hex)
+    simp [hex, hnz]
+    omega
 
 /-! ## session-key packets -/
 
